@@ -9,7 +9,8 @@
     [stream ds] the concatenation of the members of [ds] (the EOF marker is
     the member of the empty block). *)
 From Coq Require Import ZArith List Bool.
-From Hts Require Import Base.Prim Generated Model.Corrupt Proofs.Corrupt.
+From Hts Require Import Base.Prim Generated Model.Corrupt Model.BamFrame Proofs.Corrupt Proofs.CorruptMore Proofs.CorruptFraming.
+From Hts Require Model.HasEof.
 Import ListNotations.
 Open Scope Z_scope.
 
@@ -93,6 +94,96 @@ Theorem corruption_payload_partial :
       le32 [c0; c1; c2; c3] = crc32 d1 /\ le32 [s0; s1; s2; s3] = zlen d1 mod 4294967296.
 Proof. exact gz_body_crc. Qed.
 Print Assumptions corruption_payload_partial.
+
+(** Truncation, full statement.  [ds] are the data blocks of a closed stream
+    (all non-empty; the final member is the member of the empty block, i.e. the
+    EOF marker), [rs] the BAM records whose length-prefixed encodings make up the
+    data ([concat ds = flat rs]; blocks and records may be cut against each other
+    in any way).  For every PROPER prefix of the stream: the BGZF layer yields
+    exactly the data of the j complete members before the cut; if it ends
+    cleanly the cut is exactly the end of those j members AND the prefix does
+    not end with the EOF marker (HasEOF is not true); the BAM layer on top
+    yields exactly the first k records, and if both layers end cleanly the data
+    delivered ends exactly at the end of the k-th record (a record boundary) —
+    a cut inside a record, inside a length prefix or right behind one is an
+    error (bam/reader.go after 8134fd9). *)
+Theorem truncation_prefix :
+  forall (inflate : list Z -> option (list Z * list Z)) (crc32 : list Z -> Z) (deflate : list Z -> list Z),
+    (forall d r, inflate (deflate d ++ r) = Some (d, r)) ->
+    forall ds rs (n fuel fuel2 : nat),
+    Forall (wf crc32 deflate) ds -> Forall (fun d => d <> []) ds -> wf crc32 deflate [] ->
+    (length ds + 1 < fuel)%nat -> Forall okrec rs -> concat ds = flat rs -> (length rs < fuel2)%nat ->
+    (n < length (stream crc32 deflate (ds ++ [[]])))%nat ->
+    let L := read_stream inflate crc32 true fuel (firstn n (stream crc32 deflate (ds ++ [[]]))) in
+    let B := bam_recs true fuel2 (fst L) in
+    exists j k, (j <= length ds)%nat /\
+      fst L = concat (firstn j ds) /\ (length (stream crc32 deflate (firstn j ds)) <= n)%nat /\
+      fst B = firstn k rs /\
+      (snd L = true -> n = length (stream crc32 deflate (firstn j ds)) /\
+                       has_eof (firstn n (stream crc32 deflate (ds ++ [[]]))) <> 1) /\
+      (snd L && snd B = true -> length (fst L) = length (flat (firstn k rs))).
+Proof. exact truncation_full. Qed.
+Print Assumptions truncation_prefix.
+
+(** The Go function bgzf.HasEOF (model of C08: Model/HasEof.v, size expressions
+    read off the source) does not answer true on such a prefix, whatever kind
+    of io.ReaderAt it is given and wherever its cursor stands. *)
+Theorem truncation_haseof_go :
+  forall bs k p, has_eof bs <> 1 -> 0 <= p <= zlen bs ->
+    Model.HasEof.haseof_go {| Model.HasEof.he_data := bs; Model.HasEof.he_pos := p; Model.HasEof.he_methods := Some k |} <> Ok true.
+Proof. exact haseof_go_not_true. Qed.
+Print Assumptions truncation_haseof_go.
+
+(** The record layer alone: every prefix of a record stream yields the records
+    wholly before the cut, and a clean end only exactly at a record boundary. *)
+Theorem bam_truncation :
+  forall (inflate : list Z -> option (list Z * list Z)) (crc32 : list Z -> Z) (deflate : list Z -> list Z),
+    (forall d r, inflate (deflate d ++ r) = Some (d, r)) ->   (* not used by the record layer; kept from the section *)
+  forall rs (m fuel : nat), Forall okrec rs -> (length rs < fuel)%nat ->
+    exists k, (k <= length rs)%nat /\
+      fst (bam_recs true fuel (firstn m (flat rs))) = firstn k rs /\
+      (length (flat (firstn k rs)) <= m)%nat /\
+      (snd (bam_recs true fuel (firstn m (flat rs))) = true -> (m <= length (flat rs))%nat -> m = length (flat (firstn k rs))).
+Proof. exact bam_truncation_gen. Qed.
+Print Assumptions bam_truncation.
+
+(** Framing, BSIZE: whatever the two size bytes of a member are replaced with,
+    the stream from that member on is rejected at that member or read back
+    EXACTLY.  The second case includes an announced size that spans this member
+    and the following ones exactly: gzip's multistream mode joins the members
+    inside the announced region, so the data is the original data.  Uses the
+    second DEFLATE law: a proper prefix of a deflate stream does not decode. *)
+Theorem corruption_framing_bsize :
+  forall (inflate : list Z -> option (list Z * list Z)) (crc32 : list Z -> Z) (deflate : list Z -> list Z),
+    (forall d r, inflate (deflate d ++ r) = Some (d, r)) ->
+    (forall d (t : nat), (t < length (deflate d))%nat -> inflate (firstn t (deflate d)) = None) ->
+    forall lo hi d ds fuel, wf crc32 deflate d -> Forall (wf crc32 deflate) ds -> (length ds < fuel)%nat ->
+    let r := read_stream inflate crc32 true (S fuel) (header' lo hi ++ body crc32 deflate d ++ stream crc32 deflate ds) in
+    r = ([], false) \/ r = (concat (d :: ds), true).
+Proof. exact bsize_corruption_gen. Qed.
+Print Assumptions corruption_framing_bsize.
+
+(** Framing, ID1 ID2 CM: any other value is rejected. *)
+Theorem corruption_framing_magic :
+  forall (inflate : list Z -> option (list Z * list Z)) (crc32 : list Z -> Z) strict b0 b1 b2 tl,
+    (b0 =? 31) && (b1 =? 139) && (b2 =? 8) = false ->
+    read_member inflate crc32 strict (b0 :: b1 :: b2 :: tl) = RErr.
+Proof. exact magic_corruption. Qed.
+Print Assumptions corruption_framing_magic.
+
+(** Framing, FLG: with FEXTRA kept and FHCRC/FNAME/FCOMMENT clear the other
+    bits are not looked at: the member is read exactly as the original.
+    Partial with respect to "every FLG value": FEXTRA cleared, or one of
+    FHCRC/FNAME/FCOMMENT set, and substitutions in XLEN, SI1, SI2, SLEN are
+    decided by enumeration of all 256 values on the implementation only
+    (with FNAME/FCOMMENT or a larger XLEN the payload is entered at another
+    offset, so only [corruption_payload_partial] applies). *)
+Theorem corruption_framing_flg_partial :
+  forall (inflate : list Z -> option (list Z * list Z)) (crc32 : list Z -> Z) strict v tl,
+    Z.testbit v 2 = true -> Z.testbit v 1 = false -> Z.testbit v 3 = false -> Z.testbit v 4 = false ->
+    read_member inflate crc32 strict (31 :: 139 :: 8 :: v :: tl) = read_member inflate crc32 strict (31 :: 139 :: 8 :: 4 :: tl).
+Proof. exact flg_ignored_bits_member. Qed.
+Print Assumptions corruption_framing_flg_partial.
 
 (** The code in /repo is the repaired one. *)
 Theorem reader_source_strict : bgzf_reader_strict = true.
